@@ -762,6 +762,10 @@ def smoke_cases(draw):
     sc["n_procs"] = src.int(2, 6)
     sc["same_gtf"] = src.bool(0.5)
     sc["bgzip_reference"] = src.bool(0.5)
+    # one folder for the converted annotations of all runs (--genedb_output), and copies of the annotation that have
+    # the same file name in different folders
+    sc["shared_genedb_output"] = src.bool(0.5)
+    sc["same_basename"] = src.bool(0.5)
     return sc
 
 
@@ -791,11 +795,17 @@ def eval_smoke(case, ctx):
         for i in range(sc["n_procs"]):
             p2 = dict(paths)
             if not sc["same_gtf"]:
-                gp = os.path.join(d, "in", "annot_%d.gtf" % i)
+                if sc.get("same_basename"):
+                    os.makedirs(os.path.join(d, "in", "copy_%d" % i), exist_ok=True)
+                    gp = os.path.join(d, "in", "copy_%d" % i, "annot.gtf")
+                else:
+                    gp = os.path.join(d, "in", "annot_%d.gtf" % i)
                 shutil.copy(paths["gtf"], gp)
                 p2["gtf"] = gp
             out = os.path.join(d, "par_%d" % i)
             argv = build.base_argv(sc, p2, out)
+            if sc.get("shared_genedb_output"):
+                argv += ["--genedb_output", os.path.join(d, "genedb_shared")]
             env = dict(os.environ)
             env["HOME"] = home
             log = open(os.path.join(d, "par_%d.log" % i), "wb")
@@ -812,7 +822,8 @@ def eval_smoke(case, ctx):
                 continue
             for kind, f, det in compare.diff_dirs(solo.out, "OUT", out, "OUT"):
                 ctx.violation("C20:smoke:concurrent-run-output-differs:" + f, {"process": i, "detail": det}, case)
-        ctx.cls("smoke_procs=%d" % sc["n_procs"])
+        ctx.cls("smoke_procs=%d" % sc["n_procs"], "shared --genedb_output" if sc.get("shared_genedb_output") else
+                "no --genedb_output")
         ctx.mark_nontrivial(case_hash(case))
         ctx.sample({"n_procs": sc["n_procs"], "same_gtf": sc["same_gtf"]}, limit=1)
     finally:
